@@ -13,7 +13,9 @@ from common import ENV, RVA, RVH_DEBUG, WORK, build_rva, hx, proof_stage, run_li
 from pipeline import correspondence, field, parse_loc, pipe_req
 from props.graphfacts import conclude, replay  # noqa: F401
 
-THEOREMS = ["Rva.include_fault_one_error", "Rva.include_enters_file", "Rva.import_twice_refused", "Rva.toParseErr_located"]
+THEOREMS = ["Rva.include_fault_one_error", "Rva.include_enters_file", "Rva.import_twice_refused", "Rva.toParseErr_located",
+            "Rva.parseInst_lg", "Rva.parseDirective_lg", "Rva.parseStep_local",
+            "Rva.recover_append", "Rva.include_end_pops", "Rva.include_step_commutes"]
 
 
 NO_FINAL_NL = set()
@@ -95,7 +97,7 @@ def import_order(files, base="base.s"):
 
 def run(res, tier, seed):
     rng = random.Random(seed)
-    proof_ok = proof_stage(res, "Rva.Proofs.C15", THEOREMS)
+    proof_ok = proof_stage(res, "Rva.Proofs.C15", THEOREMS, extra_modules=["Rva.Proofs.C15b"])
     build_rva()
     n = 50 if tier == "quick" else 3000
     cases = []
